@@ -108,10 +108,10 @@ PROPS = {
     "C06": {
         "props": "TrackVerif.GPMF.PropsC06",
         "streams": [("GM", 2500, 40000)],
-        "clauses": ["gm.walk", "gm.walk_no_panic", "gm.read", "gm.no_panic", "gm.no_hang"],
+        "clauses": ["gm.walk", "gm.walk_no_panic", "gm.read", "gm.truncated_accepted", "gm.no_panic", "gm.no_hang"],
         "rule": "every 8th case runs the real gpmf.Walk over a generated tree with a random set of elements answered ErrSkip and optionally one failing element, and compares the visited sequence with the walker model; PRNG(seed) KLV trees written by the harness: 1..2 devices x 0..3 streams (some nested one level deeper), all 16 value types under unparsed keys with size 1..255, "
                 "repeat 0..40, every padding residue, extreme payloads (all-zero, all-ones, sign bit), dates, strings with NUL/Latin-1 bytes; sensors with SCAL, metadata, faces; "
-                "plus mutated trees, mutated real captures and random bytes; corpus: past crashers and the real .raw captures (two small ones in quick, all four in thorough); "
+                "plus well-formed trees cut short anywhere but between two top-level elements (must be an error), mutated trees, mutated real captures and random bytes; corpus: past crashers and the real .raw captures (two small ones in quick, all four in thorough); "
                 "non-trivial = >= 16 bytes; distinct by SHA-1",
         "trusted_base": KERNEL + TIE + ["encoding/binary.Read / io.LimitedReader / io.ReadFull / io.CopyN semantics modelled on byte lists",
                                         "time.Parse of the 16-byte GPMF date layout modelled as a validity predicate"],
